@@ -308,6 +308,45 @@ class ControlledExecutor:
             self.q.put(None)
 
 
+class SchedLock:
+    """The worker's own RLock, wrapped: when `lock_delay` is on, a pool thread that is about to acquire it may be held back
+    until the loop thread has gone through one more select() - a schedule the OS could produce on its own. This lets the
+    loop run between two steps of finish_request() that are not under the lock."""
+
+    def __init__(self, k):
+        self.k = k
+        self.real = threading.RLock()
+
+    def __enter__(self):
+        k = self.k
+        me = threading.get_ident()
+        if k.lock_delay and me != k.loop_thread and k.worker is not None and k.worker.alive:
+            with k.cond:
+                k.lock_acq += 1
+                if k.lock_rng.random() < k.lock_delay:
+                    start = k.iterations
+                    k.lock_wait[me] = start
+                    k.thread_state(me, "blocked-lock")
+                    k.cond.notify_all()
+                    t0 = real_time.monotonic()
+                    while k.iterations <= start and k.worker.alive and real_time.monotonic() - t0 < k.watchdog / 2:
+                        k.cond.wait(0.2)
+                    k.lock_wait.pop(me, None)
+                    k.thread_state(me, "running")
+                    k.count("pool_thread_lock_delays")
+        self.real.acquire()
+        return self
+
+    def __exit__(self, *a):
+        self.real.release()
+
+    def acquire(self, *a, **kw):
+        return self.real.acquire(*a, **kw)
+
+    def release(self):
+        return self.real.release()
+
+
 class FuturesFacade:
     FIRST_COMPLETED = real_futures.FIRST_COMPLETED
     ALL_COMPLETED = real_futures.ALL_COMPLETED
@@ -384,6 +423,10 @@ class Kernel:
         self.hang = None
         self.released = set()
         self.gate_wait = {}
+        self.lock_delay = cfgset.get("_lock_delay", 0.0)
+        self.lock_rng = __import__("random").Random(cfgset.get("_lock_seed", 0))
+        self.lock_wait = {}
+        self.lock_acq = 0
         self.phase = "history"
         self.drain_ticks = 0
         self.stop_requested_at = None
@@ -411,7 +454,9 @@ class Kernel:
         # work may stay queued only while no thread is free to take it
         if any(cid in self.released for cid in self.gate_wait.values()):
             return False            # a released handler has not woken up yet
-        return (self.queued == 0 or "idle" not in states) and all(s in ("idle", "blocked-recv", "blocked-gate") for s in states) and \
+        if any(self.iterations > start for start in self.lock_wait.values()):
+            return False            # a pool thread held back at the lock is due to continue
+        return (self.queued == 0 or "idle" not in states) and all(s in ("idle", "blocked-recv", "blocked-gate", "blocked-lock") for s in states) and \
             all(not (c.running is not None and self.tstates.get(c.running) == "blocked-recv" and (c.inbuf or c.peer_closed))
                 for c in self.conns.values() if c.closed_at is None)
 
@@ -516,6 +561,7 @@ class Kernel:
     # ---- the two blocking points of the loop -------------------------------------------------------
     def tick(self):
         self.iterations += 1
+        self.cond.notify_all()
         self.accepts_this_iter = 0
         if self.iterations > self.budget:
             raise Budget("iterations")
@@ -525,6 +571,7 @@ class Kernel:
         with self.cond:
             self.tick()
             self.selects += 1
+            self.cond.notify_all()
             self.spin = 0
             self.last_poll_iter = self.iterations
             self.check_invariants("select")
@@ -699,7 +746,7 @@ def run_history(cfgset, history, nlisteners=1, budget=600):
     k = Kernel(cfgset, history, nlisteners, budget)
     cfg = Config()
     base = {"errorlog": "/dev/null", "loglevel": "critical", "worker_class": "gthread", "graceful_timeout": 2}
-    base.update(cfgset)
+    base.update({a: b for a, b in cfgset.items() if not a.startswith("_")})
     for name, v in base.items():
         cfg.set(name, v)
     log = glogging.Logger(cfg)
@@ -716,7 +763,7 @@ def run_history(cfgset, history, nlisteners=1, budget=600):
         # what init_process() does before run()
         w.tpool = w.get_thread_pool()
         w.poller = gt.selectors.DefaultSelector()
-        w._lock = threading.RLock()
+        w._lock = SchedLock(k)
         try:
             w.run()
             k.end = "returned"
